@@ -215,6 +215,13 @@ package dht
 //@   callsite (*dht/bep44.Wrapper).Put writes-need-token: m.Q == "put" && recorded("tokenok")
 //@   callsite go:(dht/peer-store.Interface).AddPeer writes-need-token: m.Q == "announce_peer" && recorded("tokenok")
 //@   callsite go:dynamic:h writes-need-token: m.Q == "announce_peer" && recorded("tokenok")
+//@   callsite go:(dht/peer-store.Interface).AddPeer announced-endpoint: $0 == m.A.InfoHash && $1.IP == source.IP() && $1.Port == (m.A.ImpliedPort ? source.Port() : (m.A.Port != nil ? *m.A.Port : 0))
+//@   callsite go:dynamic:h announce-callback-arguments: $0 == m.A.InfoHash && $1 == source.IP() && $2 == (m.A.ImpliedPort ? source.Port() : (m.A.Port != nil ? *m.A.Port : 0)) && $3 == (m.A.ImpliedPort || m.A.Port != nil)
+//@   callsite (dht/peer-store.Interface).GetPeers peers-of-the-requested-infohash: m.Q == "get_peers" && $0 == m.A.InfoHash
+//@   callsite dht.filterPeers filters-what-the-store-returned: $querySourceIp == source.IP() && $queryWants == m.A.Want && $allPeers == recorded("peers")
+//@   callsite (*dht.Server).reply get-peers-values-and-token: m.Q == "get_peers" && s.config.PeerStore != nil ==> $r.Token != nil && *$r.Token == recorded("token") && $r.Values == recorded("filtered")
+//@   callsite (*dht.Server).reply get-carries-a-token: m.Q == "get" ==> $r.Token != nil && *$r.Token == recorded("token")
+//@   callsite (*dht.Server).createToken token-for-the-asker: $addr == source
 //@   callsite (*dht.Server).validToken checks-the-query-token: m.A != nil && $token == m.A.Token && $addr == source
 //@   callsite (*dht.Server).sendError unknown-method-204: !known(m.Q) ==> $e.Code == 204
 //@   callsite (*dht.Server).sendError missing-arguments-203: needsargs(m.Q) && m.A == nil ==> $e.Code == 203
@@ -353,3 +360,22 @@ package dht
 //@   callsite (*dht.Server).deleteTransaction removed-under-the-lock: wheld(s.mu) && $k.RemoteAddr == addr.String() && $k.T == recorded("tid") && count("call:dynamic:cancelSend") == 1
 //@   ensures registered-once-removed-once: count("call:(*dht.Server).addTransaction") == 1 && count("call:(*dht.Server).deleteTransaction") == 1
 //@   ensures one-sender-joined: count("go:(*dht.Server).Query$3") == 1 && count("chan:recv") >= 1
+
+// ---- C11: peers ----
+//@ func (dht.Addr).Port
+//@   trusted
+//@   option uf
+//@   option noalloc
+//@   ensures result == self.Port()
+//@ func (dht/peer-store.Interface).GetPeers
+//@   trusted
+//@   option records peers
+//@ func (dht/peer-store.Interface).AddPeer
+//@   trusted
+//@ func (*dht.Server).handleQuery@h
+//@   trusted
+// filterPeers: the BEP 32 family filtering of `values` is not under contract yet; the handler is verified to reply with
+// exactly what it returns
+//@ func dht.filterPeers
+//@   trusted
+//@   option records filtered
